@@ -4,12 +4,12 @@ CONSTANTS
   Mode = "parts"
   Kinds = {"Sum","Min","Max","TopN","Rows","GroupBy","Count","Row","Bool"}
   Lims = {1,2}
-  Vals <- ValsA
-  MaxCnt = 2
+  Vals <- ValsB
+  MaxCnt = 1
   R = 2
   G = 1
   ColsPer = 1
-  Canon = FALSE
+  Canon = TRUE
   DataSrc = "free"
 INIT Init
 NEXT Next
